@@ -1,5 +1,6 @@
 import argparse
 import json
+import math
 import numbers
 import pathlib
 
@@ -190,11 +191,17 @@ def setup_profile():
         unit = usedmod.parameter_units[ii]
         if unit:
             unit = " [{}]".format(unit)
-        value = input(
-            "- initial value for {}{} (currently '{}'): ".format(
-                p, unit, params[p].value))
-        if value:
-            params[p].value = float(value)
+        while True:
+            value = input(
+                "- initial value for {}{} (currently '{}'): ".format(
+                    p, unit, params[p].value))
+            if value:
+                if not math.isfinite(float(value)):
+                    # (the fit cannot start from nan or inf)
+                    print("Please enter a finite number.")
+                    continue
+                params[p].value = float(value)
+            break
         while True:
             vary = input(
                 "  vary {} (currently '{}'): ".format(p, params[p].vary))
